@@ -23,9 +23,8 @@ backward loop.
 
 `packet.Send`'s result is `sendResult`: `some pck` or the nil packet.  With the code's exit rule the
 closed channel *stands for* the `dropped` responses the pump discarded; the fixed `Send` turns it
-into a `dropped` packet.  A node's backward loop just ends on the closed channel (`bwd` does
-nothing): what its tracer still waits for on that writer stays unanswered – part (ii) of the known
-finding `close-discards-buffered`.
+into a `dropped` packet, and a node's backward loop, when the channel closes, resolves whatever
+its tracer still awaits on that writer as `dropped` (`Tracer.Drop`, `bwd` on a closed channel).
 
 The *system* (`Sys`) is a family of components plus the requests a node's in-reader has been
 handed and its forward loop has not yet taken.  Its steps are the component steps, the two
@@ -33,7 +32,11 @@ loops of a `OneToOneNode` (`fwd`: take a request, write it to the out-writer, or
 answer when nobody accepted – `Tracer.Write`; `bwd`: take a response from the out-writer as the
 answer of the oldest request waiting for one – `Tracer.Receive`; both then answer the in-reader
 for every request at the head of `reads` whose answer is known – `Tracer.resolve` for one
-in/one out), and the teardown actions,
+in/one out; on the closed channel `bwd` is `Tracer.Drop`: every request still waiting gets
+`dropped` as its answer; `fwdEnd`: the forward loop ends because its reader is closed – what the
+pump still buffered is discarded and, again with `Tracer.Drop`, every request still waiting is
+resolved as `dropped`, which only releases the tracer's bookkeeping since a closed reader passes
+nothing up), and the teardown actions,
 each *defined as the sequence of closes the Go code performs, in the code's order*
 (`closes`):
 
@@ -205,6 +208,7 @@ inductive Step where
   | prim (w : WId) (c : CStep)
   | fwd (w : WId) (r : RId)
   | bwd (w : WId)
+  | fwdEnd (w : WId) (r : RId)
   | down (t : Teardown)
   deriving DecidableEq, Repr
 
@@ -233,6 +237,12 @@ def applyClose (rule : Pump.Rule) (t : Topo) (s : Sys) : Close → Sys
 def applyCloses (rule : Pump.Rule) (t : Topo) (s : Sys) : List Close → Sys
   | [] => s
   | c :: rest => applyCloses rule t (applyClose rule t s c) rest
+
+/-- `Tracer.Drop`: every request that still waits for an answer gets `a`. -/
+def fillAll (a : Ans) : List (Nat × Option Ans) → List (Nat × Option Ans)
+  | [] => []
+  | (v, none) :: rest => (v, some a) :: fillAll a rest
+  | e :: rest => e :: fillAll a rest
 
 /-- A response as the answer a node passes upstream (its writers have one reader each in these
 workflows, so a response is never a proper join). -/
@@ -287,8 +297,23 @@ def step (rule : Pump.Rule) (t : Topo) (s : Sys) : Step → Sys × Out
         let r1 := applyPrim rule t s wo .recv
         let f := flushReads rule t wi r r1.1 (fillFirst (toAns a) (s.reads wi r))
         (setReads f.1 wi r f.2, .c r1.2)
-      | _ => (s, .skip)
+      | .closed =>
+        -- the loop ends; `Tracer.Drop(outWriter)`
+        let f := flushReads rule t wi r s (fillAll Ans.dropped (s.reads wi r))
+        (setReads f.1 wi r f.2, .unit)
+      | .blocked => (s, .skip)
     | .requester => (s, .skip)
+  | .fwdEnd w r =>
+    match t.listener w r with
+    | .node _ =>
+      if (s.comp w).w.closed r then
+        -- the reader's pump has returned (what it buffered is discarded), the forward loop ends;
+        -- `Tracer.Drop(outWriter)`
+        let s1 := { s with inbox := fun x y => if x = w ∧ y = r then [] else s.inbox x y }
+        let f := flushReads rule t w r s1 (fillAll Ans.dropped (s.reads w r))
+        (setReads f.1 w r f.2, .unit)
+      else (s, .skip)
+    | .sink _ => (s, .skip)
   | .down td => (applyCloses rule t s (closes t td), .unit)
 
 def run (rule : Pump.Rule) (t : Topo) (s : Sys) : List Step → Sys
@@ -308,6 +333,9 @@ def footprint (t : Topo) : Step → List WId
   | .bwd wo => match t.consumer wo with
     | .node wi _ => [wo, wi]
     | .requester => []
+  | .fwdEnd w r => match t.listener w r with
+    | .node _ => [w]
+    | .sink _ => []
   | .down td => (closes t td).map closeTarget
 
 end Uniflow.Teardown
